@@ -65,3 +65,51 @@ Lemma e_run :
   f_chain (fst st) 7 = [2176] /\
   option_map r_name (find_rec 2176 (f_recs (fst st))) = Some 7 /\ e_nlen 7 = 0.
 Proof. vm_compute. repeat split; reflexivity. Qed.
+
+(* ---- the other route to a survivor's errCorrupt: ten remaps do not catch up ----
+   P0 keeps creating long records of bucket 1 (a new page every three or four
+   of them); P1, on a one-page mapping, looks up a name of bucket 1.  Each
+   time P1 has re-mapped, P0 links a record beyond P1's new mapping before P1
+   reads the bucket head again.  After the tenth remap newCounter gives up. *)
+Definition t_names : list name := map (fun k => 513 + 512 * N.of_nat k) (seq 0 48).
+Definition t_st0 : state :=
+  (empty_file, [spawn w_nlen c_minFileLen (map OpNew t_names); spawn w_nlen c_minFileLen [OpNew 1]]).
+
+Definition map_of (st : state) (i : nat) : N :=
+  match nth_error (snd st) i with Some t => t_map t | None => 0 end.
+
+(* P0 steps until the head of bucket 1 lies beyond P1's mapping *)
+Fixpoint t_p0 (fuel : nat) (st : state) (acc : list nat) : state * list nat :=
+  match fuel with
+  | O => (st, acc)
+  | S k =>
+      if map_of st 1%nat <=? head_of (fst st) 1 then (st, acc)
+      else t_p0 k (step w_bucket w_nlen w_H st 0%nat) (0%nat :: acc)
+  end.
+(* then P1: load head (fails), load limit, remap *)
+Fixpoint t_rounds (n : nat) (st : state) (acc : list nat) : state * list nat :=
+  match n with
+  | O => (st, acc)
+  | S n' =>
+      let '(st1, acc1) := t_p0 3000 st acc in
+      let st2 := run w_bucket w_nlen w_H [1%nat; 1%nat; 1%nat] st1 in
+      t_rounds n' st2 (1%nat :: 1%nat :: 1%nat :: acc1)
+  end.
+Definition t_sched : list nat := Eval vm_compute in rev (snd (t_rounds 11 t_st0 [])).
+
+Lemma t_init_ok : init_ok w_bucket w_nlen w_H t_st0.
+Proof.
+  split; [apply wf_empty|]. split.
+  - intros i t E. unfold t_st0 in E. cbn [snd] in E.
+    destruct i as [|[|i]]; cbn [nth_error] in E; inversion E; subst.
+    + exists c_minFileLen, (map OpNew t_names). split; [reflexivity|]. unfold map_ok. cbn. unfold_consts. lia.
+    + exists c_minFileLen, [OpNew 1]. split; [reflexivity|]. unfold map_ok. cbn. unfold_consts. lia.
+    + destruct i; discriminate.
+  - intros r [].
+Qed.
+
+Lemma t_run :
+  let st := run w_bucket w_nlen w_H t_sched t_st0 in
+  results_of st 1%nat = [RFail FTries] /\ pc_of st 1%nat = Some Done /\
+  forallb (fun r => match r with RCell _ => true | RFail _ => false end) (results_of st 0%nat) = true.
+Proof. vm_compute. repeat split; reflexivity. Qed.
